@@ -24,6 +24,7 @@ def check(repo, tier="quick"):
         "CodecFeatures/VideoParameters declarations, set_source_defaults, the validator's zero-rejections and the decoder's "
         "quantisation-matrix layout."
     )
+    res.rule("C28.g", "bug patterns with zero expected instances in this property's modules: swapped same-named arguments, lower-bound guard followed by a decrement of the guarded value, presence of a dictionary entry decided by truthiness")
     res.rule("C28.a", "only InvalidCodecFeaturesError can escape read_codec_features_csv (modelled exception sources)")
     res.rule("C28.b", "every CodecFeatures entry is stored on every normal path of a column; stored keys are declared entries")
     res.rule("C28.c", "each (field, parser) pair: enum fields use parse_int_enum with the declared enum; integers use parse_int_at_least (never bare int); flags use parse_bool; fields the validator rejects at zero have minimum >= 1")
@@ -40,6 +41,10 @@ def check(repo, tier="quick"):
     rule_c(repo, res, m, fields, where)
     rule_d(repo, res, m, fn, loop, fields, where)
     rule_e(repo, res, m)
+    from .. import lints as _lints
+
+    _lints.rule(repo, res, "C28.g", ['codec_features'])
+    res.floor("C28.g", 2)
     res.floor("C28.a", 2)
     res.floor("C28.b", 15)
     res.floor("C28.c", 30)
